@@ -19,6 +19,43 @@ package fs
 //@   opt nopanic=off
 //@   opt inline=off
 //@   opt precall=off
-//@   callsite (CASFileSystem).open only_relative_links_resolved_beside_the_link [C29]: \
+//@   callsite (CASFileSystem).openFollowing starts_with_no_hops [C29]: arg_hops == 0 && arg_name == name
+//@   callsite (CASFileSystem).open never_follows_links_itself [C29]: false
+//
+// openFollowing: only relative targets are followed, resolved beside the link; the number of hops still allowed
+// (maxSymlinkHops - hops) is non-negative and strictly decreases at each recursive call, so a symlink loop ends
+// in an error after at most maxSymlinkHops hops instead of exhausting the stack.
+//@ func (CASFileSystem).openFollowing
+//@   requires fs != nil && hops >= 0
+//@   opt nopanic=off
+//@   opt inline=off
+//@   opt precall=off
+//@   callsite (CASFileSystem).openFollowing only_relative_links_resolved_beside_the_link [C29]: \
 //@      linkNode != nil && !filepath.IsAbs(linkNode.Target) && arg_name == filepath.Join(filepath.Dir(name), linkNode.Target)
-//@   callsite (CASFileSystem).open a_measure_decreases_at_every_hop [C29]: false
+//@   callsite (CASFileSystem).openFollowing a_measure_decreases_at_every_hop [C29]: \
+//@      arg_hops == hops + 1 && maxSymlinkHops - arg_hops >= 0 && maxSymlinkHops - arg_hops < maxSymlinkHops - hops
+//
+// ReadDir. Proved: a call with n <= 0 lists every directory, file and symlink of the node (counting
+// invariants), and a call with n > 0 returns at most n entries. The two further requirements of
+// io/fs.ReadDirFile for n > 0 — successive calls continue where the last one stopped, and the end of the
+// directory is reported as io.EOF — do not hold: every call starts again from the first entry (the type keeps
+// no position) and the error is always nil. Recorded as a known finding (region: n > 0).
+//@ assume func newDirInfo
+//@   modifies nothing
+//@ assume func newFileInfo
+//@   modifies nothing
+//@ assume func newSymlinkInfo
+//@   modifies nothing
+//@ spec chunked(n int) bool = n > 0
+//@ func (dir).ReadDir
+//@   requires p != nil && p.pb != nil
+//@   opt nopanic=off
+//@   opt inline=off
+//@   opt precall=off
+//@   invariant "range p.pb.Directories" count: len(ret) == idx && (n > 0 ==> len(ret) <= n)
+//@   invariant "range p.pb.Files" count: len(ret) == len(p.pb.Directories) + idx && (n > 0 ==> len(ret) <= n)
+//@   invariant "range p.pb.Symlinks" count: len(ret) == len(p.pb.Directories) + len(p.pb.Files) + idx && (n > 0 ==> len(ret) <= n)
+//@   ensures complete_listing [C29]: n <= 0 ==> result1 == nil && \
+//@      len(result0) == len(p.pb.Directories) + len(p.pb.Files) + len(p.pb.Symlinks)
+//@   ensures at_most_n [C29]: n > 0 ==> len(result0) <= n
+//@   ensures end_of_directory_is_eof [C29 except=chunked]: len(result0) == 0 && n > 0 ==> result1 == io.EOF
